@@ -3,5 +3,6 @@ EXTENDS Log
 ShOk1 == {[n |-> 1, kind |-> "ok"]}
 ShOk2 == {[n |-> 2, kind |-> "ok"]}
 ShOk12 == {[n |-> 1, kind |-> "ok"], [n |-> 2, kind |-> "ok"]}
+ShMax == {[n |-> 1, kind |-> "ok"], [n |-> 2, kind |-> "ok"], [n |-> 1, kind |-> "maxlod"]}
 ShAll == {[n |-> 1, kind |-> "ok"], [n |-> 2, kind |-> "ok"], [n |-> 1, kind |-> "neglod"], [n |-> 1, kind |-> "concat"]}
 ====
